@@ -197,27 +197,27 @@ Theorem C17_compose_conflict_through_json : forall ths finals f1 s1 f2 s2 f3 d1 
 Proof. exact compose_conflict_through_json. Qed.
 Print Assumptions C17_compose_conflict_through_json.
 
-(* full statement wanted: "under type 100+t with the labels registered for the type" for ALL int64 label values.
-   Proved for label values that fit an int; refuted beyond (C17_labels_beyond_int_refuted). *)
-Theorem C17_compose_pcf_through_json_partial : forall ths finals ms,
+(* "under type 100+t with the labels registered for the type": the PCF sections of the trace the runtime wrote are the merged
+   titles and labels, for ALL int64 label values (since the repair of label-value-truncated-to-int: pcf_add_value takes int64_t) *)
+Theorem C17_compose_pcf_through_json : forall ths finals ms,
   Forall thread_ok ths ->
   Forall2 (fun p s => rt_calls rtm_init (snd p) = Ret s) ths finals ->
-  Forall (fun s => Forall int_def (rt_defs s)) finals ->
   merge_threads (map rt_defs finals) = Some ms ->
   exists trees, Forall2 (fun p fs => tree_calls (fst p) (snd p) = Some fs) ths trees /\
     emu_pcf_of_trees (map jobj trees) = Some (map (fun m => (100 + mt_type m, mt_title m, mt_labels m)) ms).
 Proof. exact compose_pcf_through_json. Qed.
-Print Assumptions C17_compose_pcf_through_json_partial.
+Print Assumptions C17_compose_pcf_through_json.
 
-Theorem C17_labels_beyond_int_refuted :
+(* the code BEFORE the repair (emu_pcf_of_trees_old: pcf_add_value(pcftype, (int) l->value, ..)) violated it *)
+Theorem C17_labels_beyond_int_refuted_old :
   (exists cs s fs, forallb call_typed cs = true /\ forallb call_fits cs = true /\ rt_calls rtm_init cs = Ret s /\
      tree_calls ex_base cs = Some fs /\ parse_mark_json (jobj fs) = Some (rt_defs s) /\
-     emu_types_of_trees [jobj fs] <> None /\ emu_pcf_of_trees [jobj fs] = None) /\
+     emu_types_of_trees [jobj fs] <> None /\ emu_pcf_of_trees_old [jobj fs] = None) /\
   (exists cs s fs secs, forallb call_typed cs = true /\ forallb call_fits cs = true /\ rt_calls rtm_init cs = Ret s /\
      tree_calls ex_base cs = Some fs /\ In (61, 4294967301, 3) (rt_events s) /\
-     emu_pcf_of_trees [jobj fs] = Some secs /\ pcf_label secs 103 4294967301 = None /\ pcf_label secs 103 5 = Some sB).
-Proof. exact labels_beyond_int_refuted. Qed.
-Print Assumptions C17_labels_beyond_int_refuted.
+     emu_pcf_of_trees_old [jobj fs] = Some secs /\ pcf_label secs 103 4294967301 = None /\ pcf_label secs 103 5 = Some sB).
+Proof. exact labels_beyond_int_refuted_old. Qed.
+Print Assumptions C17_labels_beyond_int_refuted_old.
 
 (* B.3  hand-made metadata: a member of "ovni.mark" that parse_mark refuses makes the emulation fail *)
 Theorem C17_malformed_mark_metadata_refused : forall ts fs ms kv,
@@ -278,4 +278,11 @@ Example C17_ex_json_odd_accepted :
   emu_types_of_trees [jobj [(k_ovni, jobj [(k_mark, jstr sA)])]] = Some [] /\
   emu_types_of_trees [jobj [(k_ovni, jobj [(k_mark, jarr [])])]] = Some [].
 Proof. exact ex_odd_accepted. Qed.
+(* the witness programs of the former finding on the repaired code: `5 five` and `4294967301 big` both under type 103 *)
+Example C17_ex_json_big_labels :
+  emu_pcf_of_trees [jobj (ex_tree ex_big_a)] = Some [(103, sP, [(5, sA); (4294967301, sB)])] /\
+  emu_pcf_of_trees [jobj (ex_tree ex_big_b)] = Some [(103, sP, [(4294967301, sB)])] /\
+  (forall secs, emu_pcf_of_trees [jobj (ex_tree ex_big_a)] = Some secs ->
+     pcf_label secs 103 5 = Some sA /\ pcf_label secs 103 4294967301 = Some sB).
+Proof. exact ex_big_repaired. Qed.
 End J.
